@@ -147,7 +147,9 @@ impl<'a> Gen<'a> {
                     format!("{} = {} + 1", self.pick(NUM_VARS), self.pick(NUM_VARS))
                 }
             }
-            18 => if self.with_stop { "STOP".to_string() } else { "PRINT \"-\";".to_string() },
+            18 => if self.with_stop {
+                if self.rng.gen_bool(0.3) { format!("IF {} THEN STOP ELSE PRINT \"N\"", self.pick(&["1", "A = A", "0"])) } else { "STOP".to_string() }
+            } else { "PRINT \"-\";".to_string() },
             19 => {
                 if self.rng.gen_bool(self.fail_rate * 4.0) {
                     self.pick(&["NEXT Z", "RETURN", "P(11) = 1", "A = \"X\"", "GOTO 7", "READ Z9", "DIM P(5)", "X = 1 +", "PRINT )", "S$ = 3", "Q(1) = 2", "A = 1/0", "A = P(-1)", "ZZ(1) = \"X\"", "N$(2) = 5", "W4(1,1,1,1) = \"X\""]).to_string()
